@@ -955,6 +955,9 @@ func ToEntry(n Node) (e *Entry) {
 			if a := fv.Interface().([]*Deviate); a != nil {
 				for _, d := range a {
 					de := ToEntry(d)
+					// The deviate entries are kept outside Dir, so
+					// hand their errors up to where they are looked for.
+					e.importErrors(de)
 
 					dt, ok := toDeviation[d.Statement().Argument]
 					if !ok {
